@@ -11,11 +11,13 @@
      walked lexically, a link loop returns the unresolved remainder);
    - the system calls tarfile uses (mkdir, open for writing, symlink, unlink, link, mkfifo, exists, lexists)
      and os.makedirs;
-   - tarfile's 'data' extraction filter, the extra checks of kapture's own filter (the repaired code),
-     TarFile.extract with set_attrs=False: creation of upper directories, one action per member kind, and
-     the makelink fallbacks of CPython 3.12 (a link that cannot be made is replaced by a copy of the member
-     it points to, searched by normalised name), error levels (OSError / FilterError are fatal, ExtractError
-     is swallowed), and the member loop of untar_file, which stops at the first fatal error.
+   - tarfile's 'data' extraction filter, the extra checks of kapture's own filter and kapture's own creation
+     of link members (the repaired code), TarFile.extract with set_attrs=False: creation of upper
+     directories, one action per member kind, and — for the code before the repair only — the makelink
+     fallbacks of CPython 3.12 (a link that cannot be made is replaced by a copy of the member it points to,
+     searched by normalised name; the attributes that this nested extraction sets are not modelled), error
+     levels (OSError / FilterError are fatal, ExtractError is swallowed), and the member loop of untar_file,
+     which stops at the first fatal error.
    Not modelled: file modes other than owner-rw (set_attrs=False: never applied), owners, times, the tar
    container format and compression, concurrent modification.
 
@@ -223,14 +225,16 @@ Definition k_link (s : state) (scur : rpath) (scs : list string) (cur : rpath) (
   | _ => KFail
   end.
 
-(* os.makedirs(join(cur, rev rcs)) *)
+(* os.makedirs(join(cur, rev rcs), exist_ok=eok) *)
 Inductive mstat := MDone | MExists | MFail.
-Fixpoint makedirs (s : state) (cur : rpath) (rcs : list string) : state * mstat :=
+Definition k_isdir (s : state) (cur : rpath) (cs : list string) : bool :=
+  match walk Strict s FUEL [] cur cs with WOk x => is_dir s x | _ => false end.
+Fixpoint makedirs (eok : bool) (s : state) (cur : rpath) (rcs : list string) : state * mstat :=
   match rcs with
-  | [] => (s, MExists)
+  | [] => (s, if eok && is_dir s cur then MDone else MExists)
   | _ :: rhead =>
       let pre := if k_exists s cur (rev rhead) then (s, MDone)
-                 else match makedirs s cur rhead with
+                 else match makedirs eok s cur rhead with
                       | (s1, MFail) => (s1, MFail)
                       | (s1, _) => (s1, MDone)          (* FileExistsError of the recursive call is swallowed *)
                       end in
@@ -238,8 +242,8 @@ Fixpoint makedirs (s : state) (cur : rpath) (rcs : list string) : state * mstat 
       | (s1, MFail) => (s1, MFail)
       | (s1, _) => match k_mkdir s1 cur (rev rcs) with
                    | KOk s2 => (s2, MDone)
-                   | KExists => (s1, MExists)
-                   | KFail => (s1, MFail)
+                   | KExists => (s1, if eok && k_isdir s1 cur (rev rcs) then MDone else MExists)
+                   | KFail => (s1, if eok && k_isdir s1 cur (rev rcs) then MDone else MFail)
                    end
       end
   end.
@@ -354,7 +358,7 @@ Fixpoint extract_at (fuel : nat) (all : list member) (R : rpath) (s : state) (cu
   | O => EOther s
   | S f =>
     let up := removelast cs in
-    let '(s1, st) := if k_exists s cur up then (s, MDone) else makedirs s cur (rev up) in
+    let '(s1, st) := if k_exists s cur up then (s, MDone) else makedirs false s cur (rev up) in
     match st with
     | MExists | MFail => EOs s1
     | MDone =>
@@ -392,10 +396,33 @@ Fixpoint extract_at (fuel : nat) (all : list member) (R : rpath) (s : state) (cu
     end
   end.
 
+(* kapture's own creation of a link member (the repair): upper directories, removal of what is in the
+   way, then symlink / link; any OSError is fatal; no fallback *)
+Definition own_link (R : rpath) (s : state) (cs : list string) (m : member) : eres :=
+  let '(s1, st) := makedirs true s R (rev (removelast cs)) in
+  match st with
+  | MExists | MFail => EOs s1
+  | MDone =>
+      let cleared := if k_lexists s1 R cs
+                     then match k_unlink s1 R cs with KOk s2 => Some s2 | _ => None end
+                     else Some s1 in
+      match cleared with
+      | None => EOs s1
+      | Some s2 =>
+          match m with
+          | MSym _ t => match k_symlink s2 R cs t with KOk s3 => EOk s3 | _ => EOs s2 end
+          | MHard _ t => match k_link s2 R (comps t) R cs with KOk s3 => EOk s3 | _ => EOs s2 end
+          | _ => EOs s2
+          end
+      end
+  end.
+
 (* ---------------------------------------------------------------- the member loop of untar_file *)
 Inductive outcome := OOk | OFilter (e : ferr) | OOs | OOther | OFuel.
 
 Definition EFUEL : nat := 40.
+
+Definition is_link (m : member) : bool := match m with MSym _ _ | MHard _ _ => true | _ => false end.
 
 Definition step (pol : policy) (all : list member) (R : rpath) (s : state) (m : member) (i : nat) : outcome * state :=
   match check pol s R m with
@@ -405,7 +432,12 @@ Definition step (pol : policy) (all : list member) (R : rpath) (s : state) (m : 
       let n := m_name m in
       let m' := match pol with Trusted => m | _ => with_name m (lstrip_slash n) end in
       let cur := match pol with Trusted => if is_abs n then [] else R | _ => R end in
-      match extract_at EFUEL all R s cur (comps n) m' i true with
+      let r := match pol with
+               | Repaired => if is_link m then own_link R s (comps n) m'
+                             else extract_at EFUEL all R s cur (comps n) m' i true
+               | _ => extract_at EFUEL all R s cur (comps n) m' i true
+               end in
+      match r with
       | EOk s' => (OOk, s')
       | EOs s' => (OOs, s')
       | EOther s' => (OOther, s')
